@@ -121,7 +121,7 @@ func (k *c03client) judge(c *Check, scenario string) {
 }
 
 func runC03(c *Check, rng *rand.Rand) {
-	c.Rule = "chaos episodes on a topology with an unowned slot range and a listed node that refuses connections: concurrent clients pipeline GET/MGET against gated backends while (P) multi-key requests fail routing after some fragments were queued and other clients' requests follow immediately, (D) clients abort with requests in flight and new clients connect at once, (K) backend connections are killed and re-dialled, (T, timeout=300ms) requests time out and their replies arrive late; then all gates open in random order. Every value the fake cluster returns names the connection and request it was produced for; oracle: a client only ever receives values of its own connection, in request order (exact position when reply count equals request count); proxy-generated errors carry no token and are always acceptable; distinct = (scenario, clients, shape)"
+	c.Rule = "chaos episodes on a topology with an unowned slot range and a listed node that refuses connections: concurrent clients pipeline GET/MGET against gated backends while (P) multi-key requests fail routing after some fragments were queued and other clients' requests follow immediately, (O) a fragment reply above the size limit completes a split request while its sibling is outstanding, (D) clients abort with requests in flight and new clients connect at once, (K) backend connections are killed and re-dialled, (T, timeout=300ms) requests time out and their replies arrive late; then all gates open in random order. Every value the fake cluster returns names the connection and request it was produced for; oracle: a client only ever receives values of its own connection, in request order (exact position when reply count equals request count); proxy-generated errors carry no token and are always acceptable; distinct = (scenario, clients, shape)"
 	c.Assumptions = []string{"token attribution only; whether an error was due, and reply counts, are other properties' subject"}
 	var wg sync.WaitGroup
 	run := func(timeout int, scen []string, seed int64, mode string) {
@@ -140,7 +140,7 @@ func runC03(c *Check, rng *rand.Rand) {
 			c03env(c, rand.New(rand.NewSource(seed)), timeout, scen, mode)
 		}()
 	}
-	run(0, []string{"P", "D", "K", "P", "P"}, c.Seed*10+1, "")
+	run(0, []string{"P", "D", "K", "O", "P"}, c.Seed*10+1, "")
 	run(300, []string{"T", "P", "T"}, c.Seed*10+2, "")
 	if c.Thorough() {
 		run(0, []string{"P", "D", "K", "P"}, c.Seed*10+3, "race")
@@ -151,7 +151,7 @@ func runC03(c *Check, rng *rand.Rand) {
 
 func c03env(c *Check, rng *rand.Rand, timeout int, scen []string, mode string) {
 	var gapLo, gapHi int
-	env, err := NewEnv(EnvOpt{Masters: 6, Cfg: ProxyCfg{Timeout: timeout}, Mode: mode, Topo: func(cl *Cluster) *Topo {
+	env, err := NewEnv(EnvOpt{Masters: 6, Cfg: ProxyCfg{Timeout: timeout, MsgMax: 65536}, Mode: mode, Topo: func(cl *Cluster) *Topo {
 		t := EvenTopo(cl, 6, 0)
 		// an unowned range at the end of master 5's slots
 		r := t.Nodes[5].Slots[0]
@@ -231,6 +231,25 @@ func c03env(c *Check, rng *rand.Rand, timeout int, scen []string, mode string) {
 				}
 				if rng.Intn(2) == 0 {
 					env.Barrier()
+				}
+			}
+		case "O":
+			// a fragment reply larger than the configured limit completes a split request with
+			// an error while its sibling fragment is still outstanding (gated)
+			for round := 0; round < 3; round++ {
+				a := clients[0]
+				keys := a.mget(goodSlot(), goodSlot())
+				track(keys...)
+				big := BulkReply(make([]byte, 70000))
+				script.Plan(keys[0]).Act = func(*BReq) Action { return Action{Reply: ArrayReply(big)} }
+				gate(keys[1])
+				env.Barrier()
+				for _, b := range clients[1:] {
+					k := b.get(goodSlot())
+					track(k)
+					if rng.Intn(2) == 0 {
+						gate(k)
+					}
 				}
 			}
 		case "D":
